@@ -180,6 +180,7 @@ type suite struct {
 	update     bool
 	cancel     bool
 	kill       bool
+	configs    [][2]int // (budget, weight) pairs to explore; nil: all of budgets x weights
 }
 
 // enabledOps lists the transitions enabled in reference state r, in a fixed
